@@ -55,12 +55,14 @@ def send_facts(prog: Program, cr: ClientRoles) -> Tuple[Dict[str, Any], List[Tup
     tn, tc = treq[0]
     if any(tn.id in cfg.reachable(tn) and e.dst.id == tn.id for e in cfg.succ[tn.id]) or tn.id in {n.id for n in cfg.nodes if n.kind == 'next'}:
         problems.append(('ONE-TRANSMISSION', 'transport call in a loop', tn.line, 'the transport call sits in a loop'))
-    text_var = dotted(tc.args[0]) if tc.args else None
-    dump = [n for n in cfg.stmt_nodes() if text_var in assigned_names(n)]
-    ok_dump = len(dump) == 1 and isinstance(dump[0].ast, ast.Assign) and isinstance(dump[0].ast.value, ast.Call) and \
-        dotted(dump[0].ast.value.func) == 'self.json_dumper' and dump[0].ast.value.args and dotted(dump[0].ast.value.args[0]) == req and \
-        any(kw.arg == 'cls' and dotted(kw.value) == 'self.json_encoder' for kw in dump[0].ast.value.keywords)
-    facts['document'] = 'json_dumper(request, cls=json_encoder)' if ok_dump else (norm(dump[0].ast)[:70] if dump else '?')
+    # the text handed to the transport is the encoder output of the request object (through locals / tuple unpacking)
+    from ..flow import Flow as _Flw
+    _fl0 = _Flw(cfg)
+    texts = [al.expr for al in _fl0.alts(tn, tc.args[0])] if tc.args else []
+    ok_dump = bool(texts) and all(
+        isinstance(v, ast.Call) and dotted(v.func) == 'self.json_dumper' and v.args and dotted(v.args[0]) == req and
+        any(kw.arg == 'cls' and dotted(kw.value) == 'self.json_encoder' for kw in v.keywords) for v in texts)
+    facts['document'] = 'json_dumper(request, cls=json_encoder)' if ok_dump else ' | '.join(norm(v)[:70] for v in texts) or '?'
     if not ok_dump:
         problems.append(('ONE-TRANSMISSION', 'request text is not the encoder output of the request object', tn.line,
                          'the text handed to the transport must be json_dumper(request, cls=json_encoder)'))
@@ -314,8 +316,12 @@ def run(ck: Check, prog: Program) -> None:
                 if not (len(p_alts) == 1 and isinstance(p_alts[0], ast.BoolOp) and isinstance(p_alts[0].op, ast.Or) and
                         [dotted(v) for v in p_alts[0].values] == ['args', 'kwargs']):
                     problems.append(f'params `{norm(p) if p is not None else "?"}` is not `args or kwargs`')
-                stored = any(isinstance(x, ast.Call) and isinstance(x.func, ast.Attribute) and x.func.attr == 'append' and x.args and x.args[0] is rc[0]
-                             for x in walk_own(f.node))
+                stored = False
+                for n__ in _cfg.stmt_nodes():
+                    for x in calls_in(n__):
+                        if isinstance(x.func, ast.Attribute) and x.func.attr == 'append' and len(x.args) == 1 and \
+                                any(al.expr is rc[0] for al in _F(_cfg).alts(n__, x.args[0])):
+                            stored = True
                 if not stored:
                     problems.append('the request is not appended to the batch')
             else:
